@@ -61,6 +61,9 @@ VARIANTS = {
         # lambda *a / lambda **a; two statements, so that the complementary form is around
         ("optional", {"Names": {"a"}, "Nums": set(), "Kinds": {"Slice", "LambdaStar"}, "MaxStmts": 2, "MaxModSize": 14,
                       "MaxWild": 1, "StmtKindsOn": {"Expr"}, "FocusKinds": {"expr"}}, None),
+        # numeric literals of equal value and different type (1 / 1.0) next to each other
+        ("numtypes", {"Names": set(), "Nums": {"1", "1.0"}, "Kinds": {"BinOp"}, "BinOps": {"+"}, "MaxStmts": 2,
+                      "MaxModSize": 10, "MaxWild": 2, "StmtKindsOn": {"Expr"}, "FocusKinds": {"expr"}}, None),
         # runs of up to four statements in which sliding windows of a two-statement pattern overlap
         ("runs", {"Names": {"a"}, "Kinds": set(), "MaxExprSize": 1, "MaxStmts": 4, "MaxModSize": 20, "MaxWild": 1,
                   "FocusKinds": {"stmts"}, "StmtKindsOn": {"Assign"}}, None),
@@ -82,6 +85,8 @@ VARIANTS = {
                       "MaxWild": 1, "StmtKindsOn": {"Expr"}, "FocusKinds": {"expr"}}, None),
         ("runs", {"Names": {"a"}, "Kinds": set(), "MaxExprSize": 1, "MaxStmts": 4, "MaxModSize": 20, "MaxWild": 2,
                   "FocusKinds": {"stmts"}, "StmtKindsOn": {"Assign", "Expr"}}, None),
+        ("numtypes", {"Names": {"a"}, "Nums": {"1", "1.0"}, "Kinds": {"BinOp"}, "BinOps": {"+"}, "MaxStmts": 2,
+                      "MaxModSize": 10, "MaxWild": 2, "StmtKindsOn": {"Expr"}, "FocusKinds": {"expr"}}, None),
     ] + [("sim%d" % k, SIM, 4000) for k in range(6)],
 }
 
@@ -382,6 +387,7 @@ def _run_behaviour(beh):
             continue
         outer.append(sp)
     src_dump = norm_dump(src)
+    fresh = {}
     for g, gtext in info["goals"]:
         if not g["legal"]:
             stats["unjudged"] += 1
@@ -405,6 +411,8 @@ def _run_behaviour(beh):
                 continue
             if result != src:
                 stats["changed"] += 1
+            if api == "Restructure":
+                fresh[g["id"]] = (gtext, result)
             try:
                 rtree = pt.strip(pt.parse_tree(result))
             except SyntaxError:
@@ -458,6 +466,36 @@ def _run_behaviour(beh):
                 fail("Meaning" if rtree is not None else "Parses", api=api, goal=g["id"], cause=cause,
                      stmtpat=beh["stmtpat"], result=result,
                      bpar=sorted(map(tuple, g["bpar"])), gpar=sorted(map(tuple, g["gpar"])))
+    # ---- histories: the same Restructure object, asked about an earlier text of the module first,
+    # must compute for the current text what a fresh object computes (the spec: the result depends on
+    # the current text only; the fresh result was judged against the spec above)
+    for gid in ("log", "call", "same"):
+        if gid in fresh:
+            gtext, want = fresh[gid]
+            for pre in sorted(beh["earlier"], key=json.dumps):
+                pre_src = pt.render(pre)[0] + "\n"
+                stats["histories"] = stats.get("histories", 0) + 1
+                try:
+                    res.write(pre_src)
+                    r = restructure.Restructure(project, pattern, gtext, args)
+                    try:
+                        r.get_changes()
+                    except exceptions.RopeError:
+                        pass
+                    res.write(src)
+                    got = src
+                    for ch in r.get_changes().changes:
+                        got = ch.new_contents
+                except exceptions.RopeError:
+                    res.write(src)
+                    continue
+                except Exception as e:  # noqa
+                    res.write(src)
+                    fail("HistoryCrash", goal=gid, exc=type(e).__name__, earlier=pre_src)
+                    continue
+                if got != want:
+                    fail("History", goal=gid, earlier=pre_src, result=got, fresh=want)
+            break
     return {"fails": fails, "stats": stats, "src": src, "pattern": pattern,
             "args": args, "beh_digest": common.digest([beh["mod"], beh["pat"], beh["deco"]])}
 
